@@ -153,11 +153,13 @@ Step(e) ==
     [] j = "skip" -> PrintT(<<"SKIP", ToJson([l |-> l])>>)
     [] OTHER -> PrintT(<<"BAD", ToJson([l |-> l, flags |-> Flags(e)])>>)
 
-TraceInit == l = 1
-TraceNext == l <= Len(Tr) /\ (Step(Tr[l]) = TRUE) /\ l' = l + 1
+(* one initial state per line (the lines are independent); the judgement is an invariant, evaluated once per state *)
+TraceInit == l \in 1..Len(Tr)
+TraceNext == UNCHANGED l
 TraceSpec == TraceInit /\ [][TraceNext]_l
+JudgeLine == Step(Tr[l]) = TRUE
 
 Verdict ==
-  LET m == TLCGet("stats").diameter - 1 IN
+  LET m == TLCGet("distinct") IN
   PrintT(<<"TRACE", ToJson([accepted |-> (m = Len(Tr)), matched |-> m, len |-> Len(Tr)])>>)
 =============================================================================
